@@ -143,9 +143,12 @@ class _StatePointDict(JSONAttrDict):
             if error.errno != errno.ENOENT:
                 raise
 
-        # Update each job instance.
+        # Update each job instance. The read-only cached state point is
+        # derived from the id and must follow it like the lazy properties do.
+        new_statepoint = self._to_base()
         for job in self._jobs:
             job._id = new_id
+            job._cached_statepoint = new_statepoint
             job._initialize_lazy_properties()
 
         # Remove the temporary state point file if it was created. Have to do it
